@@ -20,7 +20,7 @@ RULE = ("states = (tissue, chain of similarity transforms up to the depth bound)
 BOUND = {"quick": "3 tissues (equilibrium, deformed, seeded) x both fits; 13 translations, 10 rotations (incl. tangent-aligned), 3 reflections, 6 scalings; chains to depth 2; dynamic: 6 time factors x 6 length factors",
          "thorough": "6 tissues, 24 rotations, chains to depth 3"}
 ASSUMPTIONS = ["tensions / pressures are only compared where the non-negative optimum is unique in both poses",
-               "tolerance: 1e-9 x conditioning for taubinSVD and for dlite at translations <= 10 tissue sizes; dlite beyond that is finding F8",
+               "coefficient tolerance: 1e-7 (taubinSVD); dlite: 1e-7 x (1 + 30 x translation in tissue sizes) on exact arcs, 1e-3 on deformed interfaces (leastsq termination); dlite beyond 1e2 tissue sizes is finding F8; tensions: 1e-9 x conditioning + 10 x coefficient deviation x conditioning",
                "dynamic tolerance: 3 x (5e-4 sqrt(rows)) / sigma_min of the augmented system (3-decimal rounding of the velocity term)"]
 REQUIRED_TAGS = {"all": ["translate", "rotate", "reflect", "scale", "compared", "pressures_compared", "dynamic_time", "dynamic_length", "noisy", "far_translation"]}
 
@@ -177,7 +177,8 @@ class Poses:
         res = {}
         for fit in FITS:
             o1, o2 = r["obs"][fit], r2["obs"][fit]
-            res[fit] = self.compare(g, o1, o2, fit, bool(self.tissues[d["t"]][2]))
+            mt = max([max(abs(x[1]), abs(x[2])) for x in [self.els(d["t"])[i] for i in d2["chain"]] if x[0] == "tr"] or [0.0])
+            res[fit] = self.compare(g, o1, o2, fit, bool(self.tissues[d["t"]][2]), mt)
         for fit in FITS:
             v, f1 = res[fit]
             if f1:
@@ -221,7 +222,7 @@ class Poses:
             return bool(d <= 1e-6 + 10 * tol and res1 > 1e-6)
 
     @staticmethod
-    def compare(g, o1, o2, fit="taubinSVD", noisy=False):
+    def compare(g, o1, o2, fit="taubinSVD", noisy=False, maxtrans=0.0):
         viol = []
         f1 = False
         if o1["exc"] or o2["exc"]:
@@ -244,7 +245,12 @@ class Poses:
                 viol.append({"what": "coefficient pair is neither the oriented tangent of the fitted circle nor its sign-forced image", "detail": {"pair": k}})
                 continue
             worst = max(worst, abs(push_pair(g, a) - b))
-        tolc = 1e-7 if fit != "dlite" or not noisy else 1e-4     # leastsq stops on a relative tolerance; deformed interfaces are no exact arcs
+        # taubinSVD is algebraic (exact to rounding). dlite = scipy leastsq on raw coordinates with relative termination
+        # tolerances: on exact arcs its centre error grows with the distance of the tissue from the origin; on deformed
+        # interfaces (no exact arcs) it stops in a flat valley
+        tolc = 1e-7
+        if fit == "dlite":
+            tolc = 1e-3 if noisy else 1e-7 * (1 + 30 * maxtrans)
         if worst > tolc:
             viol.append({"what": "coefficient pairs do not rotate / reflect with the tissue", "detail": {"max_dev": worst, "tol": tolc}})
         if f1:
